@@ -50,8 +50,54 @@ def main():
         for k, v in inv.contents.items():
             cont.append((k, sympy.srepr(v) if isinstance(v, sympy.Basic) else (type(v).__name__, float(v).hex())))
         attrs = sorted(k for k in inv.__dict__)
-        return {"cls": type(inv).__name__, "contents": cont, "attrs": attrs, "ds": id(inv.decay_data),
+        # values of every further instance attribute (anything besides the documented contents / data set references)
+        vals = {}
+        for k, v in inv.__dict__.items():
+            if k in ("contents", "decay_data", "decay_matrices", "sig_fig"):
+                continue
+            try:
+                vals[k] = h(np.ascontiguousarray(v).tobytes()) if isinstance(v, np.ndarray) else repr(v)[:200]
+            except Exception:
+                vals[k] = "<unprintable>"
+        return {"cls": type(inv).__name__, "contents": cont, "attrs": attrs, "vals": vals, "ds": id(inv.decay_data),
                 "dm": id(inv.decay_matrices), "sig": getattr(inv, "sig_fig", None)}
+
+    def hx(d):
+        return {k: float(v).hex() for k, v in d.items()}
+
+    def readouts(o, t, heavy=True):
+        """every calculation / read-out of o as bit patterns (or the exception type)"""
+        r = {}
+        calls = [("numbers", lambda: hx(o.numbers())), ("masses", lambda: hx(o.masses("g"))), ("moles", lambda: hx(o.moles("mol"))),
+                 ("activities", lambda: hx(o.activities("Bq"))), ("activity_fractions", lambda: hx(o.activity_fractions())),
+                 ("mass_fractions", lambda: hx(o.mass_fractions())), ("mole_fractions", lambda: hx(o.mole_fractions()))]
+        if heavy:
+            calls += [("decay", lambda: hx(o.decay(t, "s").numbers())), ("cumulative_decays", lambda: hx(o.cumulative_decays(t, "s")))]
+        for name, f in calls:
+            try:
+                r[name] = f()
+            except Exception as e:
+                r[name] = type(e).__name__
+        return r
+
+    def twin_of(o):
+        return type(o)(dict(o.contents), "num", False, o.decay_data)
+
+    def twin_check(o, t, nsteps, meth, viol, heavy=True):
+        """history independence: o (with its history) must answer exactly like a new object with equal contents"""
+        try:
+            tw = twin_of(o)
+        except Exception as e:
+            return
+        a, b = readouts(o, t, heavy), readouts(tw, t, heavy)
+        for k in a:
+            if a[k] != b[k]:
+                viol.append({"step": nsteps, "method": meth, "call": k,
+                             "what": f"{k}() of an inventory with a history differs from {k}() of a new inventory with the same contents",
+                             "with_history": a[k] if isinstance(a[k], str) else dict(list(a[k].items())[:4]),
+                             "fresh": b[k] if isinstance(b[k], str) else dict(list(b[k].items())[:4]),
+                             "contents": [(n, str(v)[:30]) for n, v in list(o.contents.items())[:6]]})
+                break
 
     MUTATING = {"add", "subtract", "remove", "remove_list"}
     tmpdir = tempfile.mkdtemp(prefix="rdverif_")
@@ -154,6 +200,10 @@ def main():
             if exc in ("KeyError", "IndexError", "AttributeError", "RuntimeError"):
                 viol.append({"step": nsteps, "method": meth, "what": f"escaped with {exc}"})
             results.append([meth, exc])
+            # (after the fingerprints:) the receiver answers like a new object with the same contents
+            if len(viol) < 3 and (meth in MUTATING or nsteps % 4 == 0):
+                hp_obj = isinstance(inv, rd.InventoryHP)
+                twin_check(inv, 1.0e6, nsteps, meth, viol, heavy=(not hp_obj) or (meth in MUTATING and exc is None and nsteps % 3 == 0))
         # two loads of the data set stay equal; the process-wide data set equals a fresh load
         fresh = decaydata.load_dataset("icrp107_ame2020_nubase2020", load_sympy=True)
         if not (fresh == D) or (fresh != D):
